@@ -17,6 +17,7 @@ package exprgen
 
 import (
 	"math/big"
+	"os"
 	"sort"
 	"strings"
 	"unicode"
@@ -981,9 +982,17 @@ func isWS(r rune) bool { return unicode.IsSpace(r) }
 // where "strip the whitespace of the adjacent literal" has one reading
 // (no newline, or exactly one newline which ends the run).
 func edgeSafe(ws string) bool {
+	if FullStrip {
+		return true
+	}
 	c := strings.Count(ws, "\n")
 	return c == 0 || (c == 1 && strings.HasSuffix(ws, "\n"))
 }
+
+// FullStrip (env C18_FULL_STRIP=1) asserts the stricter reading "a strip marker removes
+// ALL whitespace of the adjacent literal, across lines" also for heredocs; it holds only
+// after /verif/fixes/C18-strip-marker-token-level.diff is applied.
+var FullStrip = os.Getenv("C18_FULL_STRIP") != ""
 
 type tev struct {
 	lit  *string
